@@ -391,6 +391,70 @@ func (t *Tree) RenderMin(atoms []string) string {
 	return l + opWord(t.Op) + r
 }
 
+// RenderAssoc writes a right-nested chain of one operator flat ("A AND B AND C") but keeps the
+// parentheses of every other internal child, in particular of a same-operator LEFT operand:
+// "((A OR B) AND (C OR D) AND E) AND (F OR G) AND H". Together with RenderFull and RenderMin this
+// covers the three ways a reader groups an n-ary chain.
+func (t *Tree) RenderAssoc(atoms []string) string {
+	if t.Op == 0 {
+		return atoms[t.Atom]
+	}
+	l := t.L.RenderAssoc(atoms)
+	if t.L.Op != 0 {
+		l = "(" + l + ")"
+	}
+	r := t.R.RenderAssoc(atoms)
+	if t.R.Op != 0 && t.R.Op != t.Op {
+		r = "(" + r + ")"
+	}
+	return l + opWord(t.Op) + r
+}
+
+// ShapesUpTo returns, for each n in 1..maxN, every binary tree shape with n leaves and every
+// AND/OR labelling, with the leaves numbered 0..n-1 from left to right (all leaves distinct).
+func ShapesUpTo(maxN int) [][]*Tree {
+	type shape struct {
+		op   byte
+		l, r *shape
+		n    int
+	}
+	by := make([][]*shape, maxN+1)
+	by[1] = []*shape{{n: 1}}
+	for n := 2; n <= maxN; n++ {
+		for k := 1; k < n; k++ {
+			for _, op := range []byte{'a', 'o'} {
+				for _, l := range by[k] {
+					for _, r := range by[n-k] {
+						by[n] = append(by[n], &shape{op: op, l: l, r: r, n: n})
+					}
+				}
+			}
+		}
+	}
+	var build func(s *shape, next *int) *Tree
+	build = func(s *shape, next *int) *Tree {
+		if s.op == 0 {
+			t := &Tree{Atom: *next, n: 1}
+			*next++
+			return t
+		}
+		l := build(s.l, next)
+		r := build(s.r, next)
+		return &Tree{Op: s.op, L: l, R: r, n: s.n}
+	}
+	out := make([][]*Tree, maxN+1)
+	for n := 1; n <= maxN; n++ {
+		for _, s := range by[n] {
+			i := 0
+			out[n] = append(out[n], build(s, &i))
+		}
+	}
+	return out
+}
+
+// distinctAtoms: a pool of pairwise unrelated single terms for all-distinct leaf labellings.
+var distinctAtoms = []string{"MIT", "ISC", "Zlib", "0BSD", "X11", "NTP", "W3C", "Vim", "LicenseRef-a", "DocumentRef-d:LicenseRef-b", "TCL", "Zed"}
+
 // SExpr is a compact structural description used in replay files.
 func (t *Tree) SExpr(atoms []string) string {
 	if t.Op == 0 {
